@@ -65,7 +65,9 @@ Inductive sev :=
 | RMapEnter (r : rd) | RMap (r : rd) (fs : list frm) | RUnmap (r : rd) (c : nat)
 | CbStopFilter | CbStopSink | CbStopSource
 | Spawn (w : role) | Exit (w : role) | Joined (w : role)
-| MonMapRefused | MonMapRet (ok : bool).
+| MonMapRefused | MonMapRet (ok : bool)
+| StartRefused (w : role).   (* acquire_start: video_sink_start (RSink) / video_source_start (RSrc) finds its device not armed and
+                                refuses before it touches the device (a device that failed and was not configured since) *)
 
 (* program counters *)
 Inductive spc :=
@@ -175,6 +177,14 @@ Definition step_stream (s : stream) (a : actor) (e : sev) : option stream :=
                           <| mon_fresh := mon_reg s && Nat.eqb (mon_cur s) (length (log s)) |>
                           <| sto_starts ::= S |> <| c_start := TStoStarted |>
              else s <| sto_st := HAwait |> <| c_start := TFailed |>)
+  | ACli, StartRefused RSink =>
+      guard (workers_idle s && negb (hst_eqb (sto_st s) HArmed) && negb (hst_eqb (sto_st s) HRunning)
+             && match c_start s with TBegin => true | _ => false end)
+            (s <| c_start := TFailed |>)
+  | ACli, StartRefused RSrc =>
+      guard (spc_idle (s_pc s) && negb (hst_eqb (cam_st s) HArmed) && negb (hst_eqb (cam_st s) HRunning)
+             && match c_start s with TFiltUp => true | _ => false end)
+            (s <| c_start := TFailed |>)
   | ACli, Spawn RSink =>
       guard (kpc_idle (k_pc s) && hst_eqb (sto_st s) HRunning && match c_start s with TRegDone => true | _ => false end)
             (s <| sink_stopping := false |> <| sink_running := true |> <| k_pc := KTest |> <| c_start := TSinkUp |>)
@@ -399,7 +409,7 @@ Definition fail_start (s : stream) : stream :=
                        <| c_start := match c_start s with TDone => TDone | _ => TFailed end |>)
   else s.
 Definition is_start_failure (e : sev) : bool :=
-  match e with DStoStart _ false | DCamStart _ false _ => true | _ => false end.
+  match e with DStoStart _ false | DCamStart _ false _ | StartRefused _ => true | _ => false end.
 (* acquire_start's error path stops every valid stream's camera; its storage was stopped by its sink thread *)
 Definition devs_stopped (s : stream) : bool :=
   negb (valid s) || (negb (hst_eqb (cam_st s) HRunning) && negb (hst_eqb (sto_st s) HRunning)).
